@@ -311,12 +311,13 @@ pub fn parse_currency_non_commodity(input: &str) -> Result<String, ParseError> {
 pub fn parse_amount(input: &str) -> Result<f64, ParseError> {
     // A SWIFT amount is unsigned digits with at most one decimal separator and at least one
     // integer digit; f64::from_str alone would also take signs, exponents, "inf" and "NaN".
-    // SWIFT amounts and rates are at most 15 characters (15d), separator included; longer
-    // digit strings cannot be held in an f64 without loss (and 309+ digits parse as infinity).
-    if input.len() > 15 {
+    // The longest SWIFT amount format is 17d (field 19; the others are 15d or 12d), separator
+    // included; longer digit strings cannot be held in an f64 without loss (and 309+ digits
+    // parse as infinity).
+    if input.len() > 17 {
         return Err(ParseError::InvalidFormat {
             message: format!(
-                "Amount must be at most 15 characters, found {}",
+                "Amount must be at most 17 characters, found {}",
                 input.len()
             ),
         });
